@@ -201,9 +201,12 @@ def phase_script(r):
     store = dict(WIDE)
     store["nested"] = dict(WIDE)
     return {"detect": {"result": "plan", "plan": plan},
-            "build": {"result": "ok", "launch": {"processes": procs, "labels": labels}, "store": tomlw.tagged(store), "store_hashmap_keys": 12,
+            "build": {"result": "ok", "launch": {"processes": procs, "labels": labels, "plural": r.random() < 0.7,
+                                                 "slices": [["a/*"], ["b", "c/**"], ["a/*"], ["d"], ["e/f"], ["b", "c/**"], ["g"], ["h"], ["a/*"]]}, "store": tomlw.tagged(store), "store_hashmap_keys": 12,
                       # (two and three different documents of one format for one target: which of them ends up on disk is the same in every process)
-                      "build_sboms": ["cdx", "spdx", "syft", "cdx#2", "syft#2", "cdx#3"], "launch_sboms": ["syft", "cdx", "syft#2", "syft#3", "cdx#2"]}}
+                      # ("cdxbom": a cyclonedx_bom model without serial number, converted by libcnb's optional feature - every third scenario)
+                      "build_sboms": ["cdx", "spdx", "syft", "cdx#2", "syft#2", "cdx#3"] if r.random() < 0.67 else ["spdx", "cdxbom"],
+                      "launch_sboms": ["syft", "cdx", "syft#2", "syft#3", "cdx#2"] if r.random() < 0.67 else ["cdxbom", "syft"]}}
 
 
 def phase_case(arg):
